@@ -32,6 +32,10 @@ META = {
 MIN_INSTANCES = {"E1": 15, "E2": 1, "E3": 2, "E4": 1, "FIXTURE": 1}
 
 CLOCKS = ("time.", "datetime.", "uuid.", "secrets.", "os.urandom", "os.getpid", "os.times", "socket.", "platform.node")
+# draws made in worker processes come from generators seeded from OS entropy; draws made in worker threads are handed out
+# in scheduling order
+PARALLEL = ("joblib.", "multiprocessing.", "concurrent.futures.", "threading.", "asyncio.", "dask.", "ray.")
+TQDM_STATE = ("n", "last_print_n", "last_print_t", "start_t", "avg_time", "format_dict", "elapsed")
 SEED_PARAMS = ("seed", "random_state")
 SEEDED_FALLBACK = {"river.tree.HoeffdingAdaptiveTreeClassifier", "river.tree.HoeffdingAdaptiveTreeRegressor",
                    "river.forest.ARFClassifier", "river.forest.ARFRegressor", "river.ensemble.BaggingClassifier"}
@@ -140,6 +144,25 @@ def scan_module(prog, m):
                 if isinstance(n, ast.Subscript) and isinstance(n.value, ast.Name) and n.value.id == memo and \
                         isinstance(n.slice, ast.Call) and isinstance(n.slice.func, ast.Name) and n.slice.func.id == "id":
                     memo_keys.add(id(n.slice))
+    # names bound to a tqdm progress bar object
+    tqdm_names = set()
+    for n in ast.walk(m.tree):
+        if isinstance(n, ast.Assign) and isinstance(n.value, ast.Call) and len(n.targets) == 1 and isinstance(n.targets[0], ast.Name):
+            d = prog.dotted_of(m, n.value.func) if isinstance(n.value.func, (ast.Attribute, ast.Name)) else None
+            if d is None and isinstance(n.value.func, ast.Name):
+                r = prog.resolve_name(m, n.value.func.id)
+                d = r[1] if r and r[0] == "ext" else None
+            if d and d.startswith("tqdm"):
+                tqdm_names.add(n.targets[0].id)
+        if isinstance(n, ast.With):
+            for it in n.items:
+                if isinstance(it.context_expr, ast.Call) and it.optional_vars is not None and isinstance(it.optional_vars, ast.Name):
+                    d = prog.dotted_of(m, it.context_expr.func) if isinstance(it.context_expr.func, (ast.Attribute, ast.Name)) else None
+                    if d is None and isinstance(it.context_expr.func, ast.Name):
+                        r = prog.resolve_name(m, it.context_expr.func.id)
+                        d = r[1] if r and r[0] == "ext" else None
+                    if d and d.startswith("tqdm"):
+                        tqdm_names.add(it.optional_vars.id)
     # E1 / E2 on resolved call targets and name references
     for n in ast.walk(m.tree):
         if isinstance(n, ast.Call):
@@ -174,10 +197,20 @@ def scan_module(prog, m):
             elif any(d.startswith(c) or d == c for c in CLOCKS):
                 counts["E2"] += 1
                 out.append(("E2", n.lineno, "", f"{d}(...)", f"{d} makes results depend on wall-clock time / OS entropy / identity"))
+            elif any(d.startswith(c) for c in PARALLEL):
+                counts["E2"] += 1
+                out.append(("E2", n.lineno, "", f"{d}(...)",
+                            f"{d} runs package code in other processes / threads: random draws made there come from generators "
+                            f"the global seeds do not control (processes) or are handed out in scheduling order (threads)"))
         elif isinstance(n, ast.Attribute):
             d = prog.dotted_of(m, n)
             if d in ("random.SystemRandom", "numpy.random.default_rng"):
                 pass
+            if isinstance(n.value, ast.Name) and n.value.id in tqdm_names and n.attr in TQDM_STATE and isinstance(n.ctx, ast.Load):
+                counts["E2"] += 1
+                out.append(("E2", n.lineno, "", f"{n.value.id}.{n.attr} of a tqdm progress bar",
+                            f"`{n.value.id}.{n.attr}` is the progress bar's display state: tqdm refreshes it at wall-clock intervals "
+                            f"(and not at all when the bar is disabled), so a value computed from it differs between replays"))
     # E4 shared mutable state
     def mutable(v):
         if isinstance(v, (ast.List, ast.Dict, ast.Set, ast.ListComp, ast.DictComp, ast.SetComp)):
